@@ -163,3 +163,66 @@ package builder
 // C07: an analysis error and left recursion without -support-left-recursion are build errors
 //@   ensures [reject C07 C13 local] (err != nil ==> res != nil) && (err == nil && haveLeftRecursion && !old(b.supportLeftRecursion) ==> res != nil)
 //@   safety C13
+
+// ======================================================================================
+// Code-block methods: naming and label scopes (C04, C02)
+// ======================================================================================
+
+// the generated method name of a code block (the injectivity of this naming scheme over
+// (rule name, expression index) is checked as a separate lemma by the C04 check: it FAILS -- F3)
+//@ func (b *builder) funcName(ix int) (res string)
+//@   requires [ctx] b != nil
+//@   pure
+//@   ensures [name C04] res == "on" + b.ruleName + itoa(ix)
+//@   safety C13
+
+//@ func (b *builder) pushArgsSet()
+//@   requires [ctx] b != nil
+//@   modifies b.argsStack
+//@   ensures [push C04 C02] len(b.argsStack) == old(len(b.argsStack)) + 1 && len(b.argsStack[old(len(b.argsStack))]) == 0
+//@   ensures [lower C04 C02] forall k int :: 0 <= k && k < old(len(b.argsStack)) ==> b.argsStack[k] == old(b.argsStack[k])
+//@   safety C13
+//@ func (b *builder) popArgsSet()
+//@   requires [ctx] b != nil && len(b.argsStack) >= 1
+//@   modifies b.argsStack
+//@   ensures [pop C04 C02] len(b.argsStack) == old(len(b.argsStack)) - 1
+//@   ensures [lower C04 C02] forall k int :: 0 <= k && k < len(b.argsStack) ==> b.argsStack[k] == old(b.argsStack[k])
+//@   safety C13
+//@ func (b *builder) addArg(arg *ast.Identifier)
+//@   requires [ctx] b != nil && len(b.argsStack) >= 1
+//@   modifies b.argsStack
+//@   ensures [same-depth C04 C02] len(b.argsStack) == old(len(b.argsStack))
+//@   ensures [lower C04 C02] forall k int :: 0 <= k && k < len(b.argsStack) - 1 ==> b.argsStack[k] == old(b.argsStack[k])
+//@   ensures [added C04 C02] arg != nil ==> len(b.argsStack[len(b.argsStack)-1]) == old(len(b.argsStack[len(b.argsStack)-1])) + 1 && b.argsStack[len(b.argsStack)-1][old(len(b.argsStack[len(b.argsStack)-1]))] == arg.Val
+//@   safety C13
+
+//@ frameset Emit = all builder.err, all ActionExpr.FuncIx, all AndCodeExpr.FuncIx, all NotCodeExpr.FuncIx, all StateCodeExpr.FuncIx
+//@ extern builder.writeActionExprCode(b *builder, act *ast.ActionExpr)
+//@   modifies Emit
+//@ extern builder.writeAndCodeExprCode(b *builder, and *ast.AndCodeExpr)
+//@   modifies Emit
+//@ extern builder.writeNotCodeExprCode(b *builder, not *ast.NotCodeExpr)
+//@   modifies Emit
+//@ extern builder.writeStateCodeExprCode(b *builder, state *ast.StateCodeExpr)
+//@   modifies Emit
+
+// writeExprCode decides which labels a code block receives: the labels collected in the innermost
+// args set. The runtime opens a label scope (pushV) for exactly these expression kinds: the operand of
+// & ! ? * +, a labeled expression's operand, every choice alternative (and the rule body); a sequence,
+// an action and a recovery expression stay in the scope they are in. Builder and runtime must agree.
+//@ func (b *builder) writeExprCode(expr ast.Expression)
+//@   requires [ctx] b != nil && len(b.argsStack) >= 1 && TreeWF() && (expr == nil || IsExpr(expr))
+//@   modifies b.argsStack, Emit
+//@   ensures [balanced C04 C02] len(b.argsStack) == old(len(b.argsStack)) && forall k int :: 0 <= k && k < len(b.argsStack) - 1 ==> b.argsStack[k] == old(b.argsStack[k])
+//@   before builder.writeExprCode#1 assert [action-same-scope C04 C02] len(b.argsStack) == old(len(b.argsStack))
+//@   before builder.writeExprCode#2 assert [label-opens-scope C04 C02] len(b.argsStack) == old(len(b.argsStack)) + 1
+//@   before builder.writeExprCode#3 assert [and-opens-scope C04 C02] len(b.argsStack) == old(len(b.argsStack)) + 1
+//@   before builder.writeExprCode#4 assert [alternative-opens-scope C04 C02] len(b.argsStack) == old(len(b.argsStack)) + 1
+//@   before builder.writeExprCode#5 assert [not-opens-scope C04 C02] len(b.argsStack) == old(len(b.argsStack)) + 1
+//@   before builder.writeExprCode#6 assert [plus-opens-scope C04 C02] len(b.argsStack) == old(len(b.argsStack)) + 1
+//@   before builder.writeExprCode#9 assert [seq-same-scope C04 C02] len(b.argsStack) == old(len(b.argsStack))
+//@   before builder.writeExprCode#10 assert [star-opens-scope C04 C02] len(b.argsStack) == old(len(b.argsStack)) + 1
+//@   before builder.writeExprCode#11 assert [opt-opens-scope C04 C02] len(b.argsStack) == old(len(b.argsStack)) + 1
+//@   loop#1 invariant [bal] b != nil && TreeWF() && len(b.argsStack) == old(len(b.argsStack)) && forall k int :: 0 <= k && k < len(b.argsStack) - 1 ==> b.argsStack[k] == old(b.argsStack[k])
+//@   loop#2 invariant [bal] b != nil && TreeWF() && len(b.argsStack) == old(len(b.argsStack)) && forall k int :: 0 <= k && k < len(b.argsStack) - 1 ==> b.argsStack[k] == old(b.argsStack[k])
+//@   safety C13
